@@ -11,6 +11,8 @@
     lookup_returns_stored     (d.ok)    a finished lookup of `k` returned nothing or ONE COMPLETE value
                                         that some insert / load stored under `k` – no torn, no foreign value
     proxy_returns_stored      (d.ok)    the same for what evaluator_proxy::operator() returns
+    proxy_is_linearized       (d.ok)    … which is the answer of its own linearized find or the value of its own
+                                        linearized insert
     save_returns_stored       (d.ok)    the same for every entry a finished `save` has written
     history_legal             (any d)   the linearized history is a legal history of the sequential cache
     linearizable              (d.ok)    … it ends in the sequential cache `abs`, the table IS `abs` whenever no
@@ -76,7 +78,16 @@ theorem proxy_returns_stored {d : Disc} (hd : d.ok = true) {c : Cfg} {s : S} (h 
     ∃ id, (k, id) ∈ s.stored ∧ v = List.replicate c.L (k, id) := by
   have := (reach_pinv hd h).thr t
   rw [hdone] at this
-  exact this
+  exact this.1
+
+/-- … and it is the answer of the proxy's own linearized lookup, or the value of its own linearized
+    store (made after its lookup had missed): the proxy is a client of the linearizable cache -/
+theorem proxy_is_linearized {d : Disc} (hd : d.ok = true) {c : Cfg} {s : S} (h : Reach d c s) (t : Tid) (k : Key)
+    (v : List Tok) (hdone : s.th t = .pDone k v) :
+    lastOf t s.lin = some (.find t k (some v)) ∨ ∃ id, lastOf t s.lin = some (.insert t k id) ∧ v = val c k id := by
+  have := (reach_pinv hd h).thr t
+  rw [hdone] at this
+  exact this.2
 
 /-- every entry a finished `save` wrote is a key with one complete value stored under it -/
 theorem save_returns_stored {d : Disc} (hd : d.ok = true) {c : Cfg} {s : S} (h : Reach d c s) (t : Tid)
